@@ -207,7 +207,19 @@ Theorem C15_getitem_keeps : forall at_index fields s s', getitem at_index false 
 Proof. exact getitem_keeps. Qed.
 Print Assumptions C15_getitem_keeps.
 
+(* indexed assignment of a tensorclass value: keys the value holds as tensors leave self's non-tensor store and are written
+   (or created) in the tensordict part; every field stays in exactly one store — for every write function *)
+Theorem C15_setitem_keeps_invariant : forall written fields s same val s',
+  wfb fields s = true -> wfb fields val = true ->
+  setitem written false s (IVTc same val) = SOk s' -> wfb fields s' = true.
+Proof. exact setitem_wf. Qed.
+Print Assumptions C15_setitem_keeps_invariant.
+
 (* ------------------------------------------------------------------------------------------------ non-vacuity *)
+Example C15_ex_setitem : setitem (fun _ j => j) false {| s_td := [("x", VTensor 1)]; s_nt := [("o", NNone); ("s", NVal 2)] |}
+    (IVTc true {| s_td := [("x", VTensor 5); ("o", VTensor 6)]; s_nt := [("s", NVal 2)] |})
+  = SOk {| s_td := [("x", VTensor 5); ("o", VTensor 6)]; s_nt := [("s", NVal 2)] |}.
+Proof. reflexivity. Qed.
 Example C15_ex_wrap : shape_pre ["x"; "y"; "s"; "o"] ["x"; "y"; "s"] [("o", NNone)] (RTuple [ATd ["x"; "y"] false; ASelf; ANone]) = true
   /\ wrap_td_method false false ["x"; "y"; "s"; "o"] ["x"; "y"; "s"] [("o", NNone)] (RTuple [ATd ["x"; "y"] false; ASelf; ANone])
      = TTuple [TWrapped ["x"; "y"] [("o", NNone); ("s", NNone)] false false; TWrapped ["x"; "y"; "s"] [("o", NNone)] false true; TNone].
